@@ -10,6 +10,31 @@ use std::collections::BTreeMap;
 enum Table {
     Chars(Vec<char>),
     Range(u32, u32), // inclusive
+    /// evaluated initialiser whose keys are not the positions 0, 1, 2, ..: (first offending key, its position)
+    Keyed(Vec<char>, usize, usize),
+}
+
+/// Any other initialiser is evaluated: it must yield (index, character) pairs
+fn table_by_evaluation(ev: &Evaluator, body: &syn::Expr) -> Result<Table, String> {
+    let v = ev.eval(body, &mut Env::new())?;
+    let Val::List(items) = v else { return Err(format!("the initialiser evaluates to {}", v.show().chars().take(60).collect::<String>())) };
+    let mut chars = vec![];
+    let mut bad: Option<(usize, usize)> = None;
+    for (pos, it) in items.iter().enumerate() {
+        match it {
+            Val::Tuple(t) if t.len() == 2 => match (&t[0], &t[1]) {
+                (Val::Int { v: k, .. }, Val::Char(c)) => {
+                    if *k != pos as i128 && bad.is_none() {
+                        bad = Some((*k as usize, pos));
+                    }
+                    chars.push(*c);
+                }
+                (a, b) => return Err(format!("table entry ({}, {})", a.show(), b.show())),
+            },
+            o => return Err(format!("table entry {}", o.show())),
+        }
+    }
+    Ok(match bad { Some((k, p)) => Table::Keyed(chars, k, p), None => Table::Chars(chars) })
 }
 
 fn eval_u32(ev: &Evaluator, e: &syn::Expr) -> Option<i128> {
@@ -50,7 +75,7 @@ fn table_of(ev: &Evaluator, e: &syn::Expr) -> Result<Table, String> {
     match root {
         syn::Expr::Array(a) => {
             if names != ["into_iter", "enumerate", "collect"] {
-                return Err(format!("unsupported adaptor chain {:?} on a literal table", names));
+                return table_by_evaluation(ev, cur).map_err(|e| format!("adaptor chain {:?} on a literal table: {}", names, e));
             }
             let mut v = vec![];
             for x in a.elems.iter() {
@@ -67,7 +92,7 @@ fn table_of(ev: &Evaluator, e: &syn::Expr) -> Result<Table, String> {
         syn::Expr::Paren(p) => match &*p.expr {
             syn::Expr::Range(r) => {
                 if names != ["filter_map", "enumerate", "collect"] || chain[0].1 != vec!["char::from_u32".to_string()] {
-                    return Err(format!("unsupported adaptor chain {:?} on a code-point range", chain));
+                    return table_by_evaluation(ev, cur).map_err(|e| format!("adaptor chain {:?} on a code-point range: {}", names, e));
                 }
                 let lo = r.start.as_ref().and_then(|e| eval_u32(ev, e)).ok_or("range start")?;
                 let hi = r.end.as_ref().and_then(|e| eval_u32(ev, e)).ok_or("range end")?;
@@ -129,6 +154,29 @@ fn char_index(m: &Model, ctx: &mut Ctx) {
             }
         }
     }
+}
+
+/// The character tables of character_set() are keyed by position (0, 1, 2, .. without holes): `for i in lower..=upper {
+/// chars.get(&i).unwrap() }` in union_single_and_range is audited benign on that ground (shared with C08 as C08.charset).
+pub fn charset_keys(m: &Model, ctx: &mut Ctx, rule: &str) {
+    let Some(f) = m.fns.iter().find(|f| f.name == "character_set" && f.self_ty.as_deref() == Some("CharacterStringType")) else {
+        ctx.fail_closed(rule, "anchor not found: CharacterStringType::character_set");
+        return;
+    };
+    let consts = const_resolver(m);
+    let ev = Evaluator { consts: &consts, call_hook: &crate::eval::no_hook, inline: None };
+    let mut n = 0;
+    for st in m.consts.iter().filter(|c| c.is_static && c.in_fn.as_deref() == Some(f.key.as_str())) {
+        n += 1;
+        ctx.oblige(rule, &format!("table-keys:{}", st.name), true);
+        match table_of(&ev, &st.expr) {
+            Ok(Table::Keyed(_, key, pos)) => ctx.violate(rule, &format!("table-keys:{}", st.name), &st.file, st.line,
+                &format!("the character table {} is not keyed by position (entry {} has the key {}): union_single_and_range walks `for i in lower..=upper {{ chars.get(&i).unwrap() }}` and panics on the first hole — `BMPString (FROM (\"a\") | FROM (\"\\u{{D7FB}}\"..\"\\u{{E000}}\"))`", st.name, pos, key)),
+            Ok(_) => {}
+            Err(e) => ctx.fail_closed(rule, &format!("[{}]: {}", st.name, e)),
+        }
+    }
+    ctx.floor(&format!("{}/tables", rule), n, 5);
 }
 
 pub fn run(m: &Model, ctx: &mut Ctx) {
@@ -227,10 +275,16 @@ Not decided: the folding of FROM set expressions (unions/intersections) and seri
                 (Table::Chars(v), _, Some(r)) => {
                     let wl = r[0].as_u64().unwrap() as u32;
                     let wh = r[1].as_u64().unwrap() as u32;
-                    let ok = v.len() as u32 == wh - wl + 1 && v.iter().enumerate().all(|(i, c)| *c as u32 == wl + i as u32);
+                    // (the code points that are no characters — the surrogates — are not in any table)
+                    let want_v: Vec<char> = (wl..=wh).filter_map(char::from_u32).collect();
+                    let ok = *v == want_v;
                     if !ok {
                         ctx.violate("C15.sets", &format!("{}:set", ty), &st.file, st.line, &format!("the {} table ({}) is not U+{:04X}..=U+{:04X} in order", ty, sname, wl, wh));
                     }
+                }
+                (Table::Keyed(_, key, pos), _, _) => {
+                    ctx.violate("C15.sets", &format!("{}:index-not-position", ty), &st.file, st.line,
+                        &format!("the {} table ({}) is keyed by something else than the position in the table (entry {} has the key {}): ranges of a FROM constraint are rebuilt by walking the keys lower..=upper, open ends use 0 and len() - 1 — a table with holes in its keys gives shifted or truncated alphabets, and `chars.get(&i).unwrap()` in union_single_and_range panics on a hole", ty, sname, pos, key));
                 }
                 _ => ctx.fail_closed("C15.sets", &format!("{}: reference entry malformed", ty)),
             }
